@@ -101,9 +101,14 @@ class SvcCanon(pC07.Canon):
     """pC07.Canon + the system calls that only occur on the service's files (ftruncate / mmap of the dynamic config, read / fstat of
     static and dynamic config, mkdir of the services directory, access of the static config) and the result marker on stdout"""
 
+    ROLES = ("stag", "static", "dyn")      # roles whose fd-based calls are canonicalised here
+    INIT = INIT_MODE
+    MARK = r'"(created|opened|recreate) '  # result lines on stdout
+
     def __init__(self, case):
         super().__init__(case, closes=False)
-        self.mark = None            # number of events when the process printed its result line
+        self.mark = None            # number of events when the process printed its (first) result line
+        self.marks = []             # … every result line
 
     def _count(self, sc):
         self.cnt[sc] = self.cnt.get(sc, 0) + 1
@@ -123,16 +128,17 @@ class SvcCanon(pC07.Canon):
                 first = parts[4] if len(parts) > 4 else ""
                 if "MAP_SHARED" not in args:
                     first = ""
-            if sc == "write" and first == "1" and self.mark is None and re.search(r'"(created|opened|recreate) ', args):
+            if sc == "write" and first == "1" and re.search(self.MARK, args):
                 self._count(sc)
-                self.mark = len(self.events)
+                self.marks.append(len(self.events))
+                self.mark = self.marks[0]
                 return
             f = self.fd.get(int(first)) if first.isdigit() else None
-            if f and not f[3] and f[0] in ("stag", "static", "dyn"):
+            if f and not f[3] and f[0] in self.ROLES:
                 role = f[0]
                 if sc == "fchmod":
                     mode = args.split(",")[1].strip()
-                    name = f"fchmod {role} {'init' if mode == INIT_MODE[role] else 'final'}"
+                    name = f"fchmod {role} {'init' if mode == self.INIT[role] else 'final'}"
                 elif sc == "newfstatat":
                     name = f"fstat {role}"
                 elif sc == "mmap":
